@@ -104,6 +104,9 @@ var tInt = types.Typ[types.Int]
 // tMathInt is the type of unbounded integers in contract expressions: the result of
 // contract arithmetic (which never wraps) and of the spec type mathint.  Converting it
 // to a machine integer type wraps.
+// tRef is the spec type of object references (unbounded, like the allocation watermark).
+var tRef = types.NewNamed(types.NewTypeName(0, nil, "ref", nil), types.Typ[types.Int], nil)
+
 var tMathInt = types.NewNamed(types.NewTypeName(0, nil, "mathint", nil), types.Typ[types.Int], nil)
 var tBool = types.Typ[types.Bool]
 var tString = types.Typ[types.String]
@@ -179,7 +182,7 @@ func (g *fgen) resolveType(ct *ctype, pkg *types.Package) (types.Type, error) {
 	case "name":
 		name := ct.name
 		if name == "ref" {
-			return tInt, nil
+			return tRef, nil
 		}
 		if name == "mathint" {
 			return tMathInt, nil
@@ -784,7 +787,7 @@ func (e *cenv) quant(x *cQuant) val {
 		srt := g.sortOf(t)
 		binders = append(binders, fmt.Sprintf("(%s %s)", n, srt))
 		vars[v.name] = val{n, t, srt}
-		if v.typ.kind == "name" && (v.typ.name == "mathint") {
+		if v.typ.kind == "name" && (v.typ.name == "mathint" || v.typ.name == "ref") {
 			continue
 		}
 		if r := g.wf(n, t, "", 0); r != "true" {
@@ -1019,6 +1022,17 @@ func (e *cenv) call(x *cCall) val {
 			e.fail("as needs a type")
 		}
 		return val{g.fromIface(v.t, t), t, g.sortOf(t)}
+	case "allocated":
+		// the object exists in the current state (its reference is below the
+		// allocation watermark)
+		v := e.tr(x.args[0])
+		t := v.t
+		if v.sort == "Slice" {
+			t = fmt.Sprintf("(s_arr %s)", v.t)
+		} else if v.sort == "Iface" {
+			t = fmt.Sprintf("(i_pl %s)", v.t)
+		}
+		return val{fmt.Sprintf("(<= %s %s)", t, e.st.alloc), tBool, "Bool"}
 	case "fresh":
 		v := e.tr(x.args[0])
 		if e.old == nil {
